@@ -143,7 +143,17 @@ func OffsetWrites(log []fake.LogEntry) []OffsetWrite {
 }
 
 // Execute runs the case with the given fault sequence; after the last fault one more run goes to the end sentinel.
-func Execute(c Case, faults []Fault) *Trace {
+func Execute(c Case, faults []Fault) *Trace { return ExecuteOpts(c, faults, Opts{}) }
+
+// Opts tunes Execute.
+type Opts struct {
+	// IdleRunMs > 0: when a restart finds nothing left to replay the tool is still run against an idle source for this long, then stopped.
+	IdleRunMs int
+	// AfterEndIdleMs: keep the last run alive (idle source) this long after the sentinel.
+	AfterEndIdleMs int
+}
+
+func ExecuteOpts(c Case, faults []Fault, o Opts) *Trace {
 	gen.QuietLogs()
 	cmds := WithSentinel(c)
 	model := gen.Interpret(cmds, c.Cfg, c.Start, -1)
@@ -187,6 +197,18 @@ func Execute(c Case, faults []Fault) *Trace {
 		if from == model.Ends[len(model.Ends)-1] {
 			// the stored position is the end of the stream: nothing is left to replay
 			run.NothingLeft = true
+			if o.IdleRunMs > 0 {
+				logMid, _ := srv.SnapshotLog()
+				res := gen.RunSend(ro, srv, gen.Feed{RunID: IDs[0], Start: from, Bytes: nil, Sentinel: SentinelKey, Timeout: time.Duration(o.IdleRunMs) * time.Millisecond, IdleOnly: true})
+				if !srv.WaitIdle(3 * time.Second) {
+					srv.DropConns()
+				}
+				logAfter, reqAfter := srv.SnapshotLog()
+				run.Log = logAfter[len(logBefore):]
+				run.SendLog = logAfter[len(logMid):]
+				run.Reqs = reqAfter[len(reqBefore):]
+				run.SendErr = fmt.Sprint(res.SendErr)
+			}
 			tr.Runs = append(tr.Runs, run)
 			return tr
 		}
@@ -199,6 +221,9 @@ func Execute(c Case, faults []Fault) *Trace {
 		}
 		logMid, _ := srv.SnapshotLog()
 		feed := gen.Feed{RunID: IDs[0], Start: from, Bytes: model.Bytes[rel:], CmdEnds: relEnds, Sched: c.Sched, Sentinel: SentinelKey}
+		if f == nil {
+			feed.AfterEndIdleMs = o.AfterEndIdleMs
+		}
 		if f != nil {
 			switch f.Mode {
 			case "crash":
